@@ -179,7 +179,8 @@ def hint_apply(vk, cur, op):
             if None not in vs:
                 cur.extend(vs)
         elif k == "Imul":
-            cur *= op[1]
+            if abs(op[1]) < 2 ** 62:
+                cur *= op[1]
         elif k == "ImulQ":
             pass
         elif k == "Insert":
@@ -201,8 +202,13 @@ def hint_apply(vk, cur, op):
         pass
 
 
-def gen_index(rnd, n, huge=2 ** 62):
+WORD = [2 ** 63, -2 ** 63 - 1, 2 ** 100, -2 ** 100, 2 ** 63 - 1, -2 ** 63, 2 ** 64]     # around / beyond Py_ssize_t
+
+
+def gen_index(rnd, n, huge=2 ** 62, word=False):
     r = rnd.random()
+    if word and r < 0.08:
+        return rnd.choice(WORD)      # list.insert / list.pop: OverflowError beyond a machine word, list untouched
     if r < 0.55:
         return rnd.randint(-n - 2, n + 1)
     if r < 0.8:
@@ -271,7 +277,7 @@ def gen_op(rnd, vk, cur, allow_self=False):
         return ["SetSliceN", gen_slice(rnd, n), bad] if k == "SetSlice" else ["ExtendN", bad]
     if k in ("Insert", "Pop", "Imul") and rnd.random() < 0.08:
         # the integer argument as an object with __index__ only: the code raises TypeError (finding F26)
-        i = rnd.randint(-n - 1, n + 1)
+        i = rnd.randint(-n - 1, n + 1) if rnd.random() < 0.85 else rnd.choice(WORD)
         return ["InsertX", i, gen_items(rnd, vk, 1, cur)[0]] if k == "Insert" else ["PopX", i] if k == "Pop" \
             else ["ImulX", rnd.choice([-1, 0, 1, 2])]
     if allow_self and k in ("SetSlice", "Extend", "Iadd") and rnd.random() < 0.12:
@@ -299,15 +305,17 @@ def gen_op(rnd, vk, cur, allow_self=False):
         if r < 0.3:        # a number that is not an integer type: TypeError, nothing changes
             return ["ImulQ", rnd.choice([-3, -1, 0, 1, 2, 3, 4, 5, 8]), rnd.choice([1, 2, 4]),
                     rnd.choice(["float", "float", "fraction", "decimal"])]
+        if r < 0.36:
+            return [k, rnd.choice([2 ** 100, -2 ** 100, 2 ** 63, -2 ** 63 - 1])]      # OverflowError, list untouched
         if r < 0.4:
             return [k, rnd.choice([0, 1]), "bool"]
         m = rnd.choice([-1, 0, 1, 2, 2, 3])
         m = m if n * m <= 40 else rnd.choice([0, 1])
         return [k, m, "numpy"] if r < 0.5 else [k, m]
     if k == "Insert":
-        return [k, gen_index(rnd, n), gen_items(rnd, vk, 1, cur)[0]]
+        return [k, gen_index(rnd, n, word=True), gen_items(rnd, vk, 1, cur)[0]]
     if k == "Pop":
-        return [k, None if rnd.random() < 0.3 else gen_index(rnd, n)]
+        return [k, None if rnd.random() < 0.3 else gen_index(rnd, n, word=True)]
     if k == "Remove":
         r = rnd.random()
         if cur and r < 0.5:
@@ -378,6 +386,9 @@ def corpus():
             ["SetInt", -1, 104], ["SetInt", 7, 200], ["SetInt", 7, 1], ["Pop", -9], ["Pop", None],
             ["SetSliceN", [1, 3, None], "none"], ["SetSliceN", [None, None, None], "zero"], ["ExtendN", "false"],
             ["SortPos", "none-true"], ["SortPos", "len"], ["Append", 202], ["SetInt", 0, 202],
+            ["Insert", 2 ** 63, 3], ["Insert", -2 ** 100, 3], ["Insert", 2 ** 100, 200], ["Pop", 2 ** 63], ["Pop", -2 ** 100],
+            ["Imul", 2 ** 100], ["Imul", -2 ** 63 - 1], ["Insert", 2 ** 63 - 1, 3], ["Insert", -2 ** 63, 4],
+            ["SetInt", 2 ** 100, 3], ["DelInt", -2 ** 100], ["DelSlice", [2 ** 100, None, None]],
             ["Insert", -100, 3], ["Insert", 100, 103], ["InsertX", 0, 3], ["PopX", 0], ["ImulX", 2], ["ImulX", 0], ["PopX", 99], ["Imul", 2], ["Imul", 0], ["Imul", 3], ["Clear"], ["Clear"],
             ["Remove", 3], ["Append", 3], ["Remove", 103], ["Remove", 3],
             ["Extend", [1, 2]], ["Extend", None, "self"], ["Iadd", None, "self"], ["SetSlice", [1, 2, None], None, "self"],
@@ -435,7 +446,10 @@ def grid_ops(b):
                 ["Insert", i, 200], ["Pop", i], ["Imul", i], ["Remove", 10 + i], ["InsertX", i, 99], ["PopX", i],
                 ["ImulX", i]]
     ops += [["Pop", None], ["Append", 5], ["Append", 105], ["Append", 200], ["Extend", [5, 6]], ["Extend", []],
-            ["Extend", [5, 200]], ["Iadd", [5, 106]], ["Iadd", []], ["SortPos", "none-true"], ["ExtendN", "none"],
+            ["Extend", [5, 200]], ["Iadd", [5, 106]], ["Iadd", []], ["Insert", 2 ** 100, 99], ["Insert", -2 ** 100, 200],
+            ["Insert", 2 ** 63 - 1, 99], ["Insert", -2 ** 63, 99], ["Insert", 2 ** 63, 99], ["Pop", 2 ** 100],
+            ["Pop", -2 ** 63 - 1], ["Imul", 2 ** 100], ["Imul", -2 ** 100], ["InsertX", 2 ** 63, 99], ["PopX", -2 ** 63 - 1],
+            ["SortPos", "none-true"], ["ExtendN", "none"],
             ["SetSliceN", [None, None, None], "none"], ["SetSliceN", [1, 3, None], "zero"],
             ["SetSliceN", [None, None, 2], "false"], ["SetSliceN", [None, None, 0], "none"], ["ImulQ", 1, 2, "float"], ["ImulQ", 5, 2, "float"],
             ["ImulQ", 2, 1, "float"], ["ImulQ", -1, 2, "float"], ["Clear"], ["Reverse"], ["Sort", False, 0],
